@@ -1,6 +1,6 @@
 HARNESSES = {
     'RegisterStep': dict(split={'call': 5}),
-    'StartPathGradient': dict(quick=dict(params={'stops': 2}), thorough=dict(params={'stops': 4})),
+    'StartPathGradient': dict(quick=dict(params={'stops': 2}, ext_s=240), thorough=dict(params={'stops': 4})),
     'Repaint': dict(split={'write': 2}, job_timeout_s=700, quick=dict(params={'stops': 2}), thorough=dict(params={'stops': 3})),
     'DisabledPath': dict(split={'call': 19}),
 }
